@@ -736,12 +736,11 @@ def std(a, axis=None, dtype=None, keepdims=False, ddof=0, split_every=None, out=
             keepdims=keepdims,
             ddof=ddof,
             split_every=split_every,
-            out=out,
         )
     )
     if dtype and dtype != result.dtype:
         result = result.astype(dtype)
-    return result
+    return handle_out(out, result)
 
 
 @derived_from(np)
@@ -756,12 +755,11 @@ def nanstd(
             keepdims=keepdims,
             ddof=ddof,
             split_every=split_every,
-            out=out,
         )
     )
     if dtype and dtype != result.dtype:
         result = result.astype(dtype)
-    return result
+    return handle_out(out, result)
 
 
 def _arg_combine(data, axis, argfunc, keepdims=False):
